@@ -335,8 +335,8 @@ impl Job for Sound {
             }
         }
         for (name, ti) in [
-            ("trace length x2", guarded(|| TraceInfo::new_multi_segment(sc.shape.width, sc.shape.aux_width(), sc.shape.aux_rands, sc.shape.n * 2, vec![]))),
-            ("trace meta", guarded(|| TraceInfo::new_multi_segment(sc.shape.width, sc.shape.aux_width(), sc.shape.aux_rands, sc.shape.n, vec![1]))),
+            ("trace length x2", guarded(|| TraceInfo::new_multi_segment(sc.shape.width, sc.shape.aux_width(), sc.shape.aux_rands, sc.shape.n * 2, sc.shape.meta.clone()))),
+            ("trace meta", guarded(|| TraceInfo::new_multi_segment(sc.shape.width, sc.shape.aux_width(), sc.shape.aux_rands, sc.shape.n, [sc.shape.meta.clone(), vec![1]].concat()))),
         ] {
             if let Ok(ti) = ti {
                 let mut p = fresh();
